@@ -290,11 +290,13 @@ func (vc *VC) havocTarget(tg modTarget) {
 	vc.compEntry(tg.comp, tg.sort)
 	if tg.whole {
 		vc.cur.comps[tg.comp] = vc.fresh(compPrefix(tg.comp), tg.sort)
+		vc.assumeCompValid(vc.cur.comps[tg.comp], tg.sort, false)
 		return
 	}
 	// element sort of "(Array Int X)"
 	es := strings.TrimSuffix(strings.TrimPrefix(tg.sort, "(Array Int "), ")")
 	v := vc.fresh("hv", es)
+	vc.assumeCompValid(v, es, false)
 	vc.setComp(vc.cur, tg.comp, tg.sort, app("store", vc.comp(vc.cur, tg.comp, tg.sort), tg.ref, v))
 	if vc.tracked(tg.comp) {
 		ic := "I." + tg.comp
@@ -679,14 +681,32 @@ func (vc *VC) callWrites(x ssa.CallInstruction, compSet map[string]bool) {
 	}
 }
 
-// applyLoopFrame: with "loop k: modifies ..." everything allocated before the loop and not listed
-// keeps its pre-loop value at every iteration head.
+// applyLoopFrame: at the head of an arbitrary iteration, every location that was allocated before
+// and is outside the frame keeps its earlier value. With "loop k: modifies ..." the frame is that
+// list relative to the state on loop entry; otherwise it is the function's own modifies clause
+// relative to the function's entry state (checked on loop entry and at every back edge, so the
+// assumption is inductive).
 func (vc *VC) applyLoopFrame(li *loopInfo, pre *State, comps []string) {
-	ctx := vc.ctx(pre, vc.entry)
-	ctx.loopScope = vc.loopPos(li)
+	var clauses []*Clause
+	base := pre
+	explicit := len(li.mods) > 0
+	if explicit {
+		clauses = li.mods
+	} else {
+		base = vc.entry
+		for _, c := range vc.decl.Clauses {
+			if c.Kind == "modifies" {
+				clauses = append(clauses, c)
+			}
+		}
+	}
+	ctx := vc.ctx(base, vc.entry)
+	if explicit {
+		ctx.loopScope = vc.loopPos(li)
+	}
 	allowed := map[string][]Term{}
 	whole := map[string]bool{}
-	for _, c := range li.mods {
+	for _, c := range clauses {
 		for _, m := range c.Mods {
 			for _, tg := range ctx.modTargets(m) {
 				if tg.whole {
@@ -697,24 +717,36 @@ func (vc *VC) applyLoopFrame(li *loopInfo, pre *State, comps []string) {
 			}
 		}
 	}
-	preNext := vc.next(pre)
+	li.frameAllowed, li.frameWhole, li.framePre = allowed, whole, base
+	baseNext := vc.next(base)
+	pos := vc.loopPos(li)
 	for _, c := range comps {
 		s, ok := vc.compSort[c]
-		if !ok || c == compNext || whole[c] || strings.HasPrefix(c, "R.") {
+		if !ok || c == compNext || whole[c] || strings.HasPrefix(c, "R.") || strings.HasPrefix(c, "I.") {
 			continue
 		}
 		cur := vc.cur.comps[c]
-		old := vc.comp(pre, c, s)
-		if !strings.HasPrefix(s, "(Array Int ") {
-			vc.assume(eq(cur, old))
-			continue
-		}
-		conds := []Term{app("<", rootOf("r"), preNext)}
+		old := vc.comp(base, c, s)
+		single := !strings.HasPrefix(s, "(Array Int ")
+		conds := []Term{app("<", rootOf("r"), baseNext)}
 		for _, a := range allowed[c] {
 			conds = append(conds, not(eq("r", a)))
 		}
+		if !explicit {
+			// base case: the state on loop entry respects the frame
+			at := vc.comp(pre, c, s)
+			if at != old {
+				if single {
+					vc.oblige("loopframe-init", fmt.Sprintf("%d.%s", li.ordinal, c), eq(at, old), pos)
+				} else {
+					vc.oblige("loopframe-init", fmt.Sprintf("%d.%s", li.ordinal, c), fmt.Sprintf("(forall ((r Int)) %s)", implies(and(conds...), eq(app("select", at, "r"), app("select", old, "r")))), pos)
+				}
+			}
+		}
+		if single {
+			vc.assume(eq(cur, old))
+			continue
+		}
 		vc.assume(fmt.Sprintf("(forall ((r Int)) (! %s :pattern ((select %s r))))", implies(and(conds...), eq(app("select", cur, "r"), app("select", old, "r"))), cur))
 	}
-	vc.assumes["loop frame of "+vc.key+fmt.Sprintf(" loop %d is checked at the back edge", li.ordinal)] = true
-	li.frameAllowed, li.frameWhole, li.framePre = allowed, whole, pre
 }
